@@ -280,6 +280,24 @@ let run_case (lines : string list) =
          on_outcome (M.d_mut_pt (o k) f i v) (fun s -> Hashtbl.replace obj k s; pr "ok\n")
        | "D.mutch" -> let k = tk_int tk in let f = tk_u tk in let s = tk_u tk in let i = tk_u tk in let v = tk_flt tk in
          on_outcome (M.d_mut_ch (o k) f s i v) (fun st -> Hashtbl.replace obj k st; pr "ok\n")
+       | "D.mutptn" -> let k = tk_int tk in let f = tk_u tk in let n = tk_str tk in let v = tk_flt tk in
+         on_outcome (M.at_ (o k).M.frames f) (fun fr -> on_outcome (M.point_idx fr.M.fr_pts n) (fun i ->
+           on_outcome (M.d_mut_pt (o k) f i v) (fun s -> Hashtbl.replace obj k s; pr "ok\n")))
+       | "D.mutchn" -> let k = tk_int tk in let f = tk_u tk in let sfi = tk_u tk in let n = tk_str tk in let v = tk_flt tk in
+         on_outcome (M.at_ (o k).M.frames f) (fun fr -> on_outcome (M.at_ fr.M.fr_subs sfi) (fun sf -> on_outcome (M.channel_idx sf n) (fun i ->
+           on_outcome (M.d_mut_ch (o k) f sfi i v) (fun st -> Hashtbl.replace obj k st; pr "ok\n"))))
+       | "get.vec" -> let k = tk_int tk in
+         let st = o k in
+         let b = Buffer.create 128 in
+         Buffer.add_string b (Printf.sprintf "ok %d %d" (List.length st.M.frames) (List.length st.M.groups));
+         List.iter (fun g -> Buffer.add_string b (Printf.sprintf " %d" (List.length g.M.g_params))) st.M.groups;
+         Buffer.add_string b " |";
+         List.iteri (fun fi f -> if fi < 3 then begin
+           Buffer.add_string b (Printf.sprintf " %d:%d" (List.length f.M.fr_pts) (List.length f.M.fr_subs));
+           List.iter (fun sf -> Buffer.add_string b (Printf.sprintf ",%d" (List.length sf))) f.M.fr_subs;
+           List.iteri (fun pi p -> if pi < 2 then
+             Buffer.add_string b (Printf.sprintf " %s %s %s %s =" (hexf p.M.pt_x) (hexf p.M.pt_y) (hexf p.M.pt_z) (hexf p.M.pt_r))) f.M.fr_pts end) st.M.frames;
+         pr "%s\n" (Buffer.contents b)
        (* ---- look-ups ---- *)
        | "get.frame" -> let k = tk_int tk in let i = tk_u tk in
          on_outcome (M.at_ (o k).M.frames i) (fun f -> pr "ok %d %d\n" (List.length f.M.fr_pts) (List.length f.M.fr_subs))
